@@ -16,6 +16,17 @@ impl Graveyard {
         }
     }
 
+    #[cfg(feature = "verif-hooks")]
+    pub fn verif_keys(&self) -> Vec<(String, bool)> {
+        let mut o: Vec<_> = self
+            .connections
+            .iter()
+            .map(|(k, v)| (k.clone(), v.session_state.is_some()))
+            .collect();
+        o.sort();
+        o
+    }
+
     /// Add a new connection.
     /// Return tracker of previous connection if connection id already exists
     pub fn retrieve(&mut self, id: &str) -> Option<SavedState> {
